@@ -625,12 +625,14 @@ iface Log.Delete
     ensures[size]    err == nil ==> ret1 == sumSize(self, gDeleted[self])
     // the segment holding the lowest requested offset is rewritten: a live lowest offset is always removed
     ensures[progress] err == nil && len(offsets) > 0 && (forall o int64 :: has(offsets, o) ==> old(gLive[self][o])) ==> len(ret0) > 0
-    ensures[failed]  err != nil ==> len(ret0) == 0 && ret1 == 0
+    // a failing Delete is atomic: nothing removed (for klevdb's own log see D10 in /verif/DESIGN.md)
+    ensures[failed]  err != nil ==> len(ret0) == 0 && ret1 == 0 && gLive[self] == old(gLive[self])
 
 field DeleteMultiBackoff
     ensures true
 
 func DeleteMulti
+    flags noframe
     requires absWf(l)
     assigns gLive, gCount, gTotal, gDeleted
     ensures[wf]       absWf(l) && gNext[l] == old(gNext[l])
@@ -651,7 +653,7 @@ func DeleteMulti
       invariant[only]     forall o int64 :: old(gLive[l][o]) && !gLive[l][o] ==> (exists j :: 0 <= j && j < len(deletedMessages) && deletedMessages[j].Offset == o)
       invariant[keeps]    forall o int64 :: gLive[l][o] ==> old(gLive[l][o])
     loop 2
-      invariant[idx]      -1 <= rangeindex && rangeindex < len(deleted)
+      invariant[idx]      -1 <= rangeindex && rangeindex < len(deleted) && remainingOffsets != nil && remainingOffsets != offsets
       invariant[sub]      forall o int64 :: has(remainingOffsets, o) ==> has(offsets, o)
       invariant[removed]  forall j :: 0 <= j && j <= rangeindex ==> !has(remainingOffsets, deleted[j].Offset)
       invariant[rest]     forall o int64 :: has(offsets, o) && !has(remainingOffsets, o) ==> !gLive[l][o]
